@@ -13,9 +13,9 @@ cd "$COPY"
 git -C /repo worktree add --detach "$WT" HEAD >/dev/null 2>&1 || exit 2
 for d in seeded/$PAT/; do
   id=$(basename "$d"); prop=$(python3 -c "import json;print(json.load(open('$d/meta.json'))['property'])")
-  git -C "$WT" checkout -q -- . ; git -C "$WT" clean -fdq
+  git -C "$WT" reset -q --hard HEAD; git -C "$WT" clean -fdq
   if ! git -C "$WT" apply "$PWD/$d/patch.diff" 2>/dev/null; then
-    if ! git -C "$WT" apply --3way "$PWD/$d/patch.diff" >/dev/null 2>&1; then echo "$id $prop patch-does-not-apply"; continue; fi
+    if ! patch -d "$WT" -p1 -s -F3 --no-backup-if-mismatch < "$PWD/$d/patch.diff" >/dev/null 2>&1; then echo "$id $prop patch-does-not-apply"; continue; fi
   fi
   NESSAI_REPO="$WT" ./check "$prop" --tier "$TIER" > "/tmp/seedreg-$id.log" 2>&1; rc=$?
   kind=$(grep -a "VIOLATION" "/tmp/seedreg-$id.log" | grep -c "no-failing-input-found")
